@@ -55,6 +55,12 @@ def get_connected_subgraph(
     subgraph.is_nested_oneof = is_nested_oneof
     subgraph.source = source
     subgraph.dest = dest
-    subgraph.name = f'{source} —> {dest}, rec={is_recurrent}, oneof={is_oneof}, nested_oneof={is_nested_oneof}'
+
+    # A subgraph view shares the graph-level attribute dict with the DAG it was taken from,
+    # so the name must be set on a private copy
+    subgraph.graph = dict(
+        subgraph.graph,
+        name=f'{source} —> {dest}, rec={is_recurrent}, oneof={is_oneof}, nested_oneof={is_nested_oneof}',
+    )
 
     return subgraph
